@@ -72,6 +72,11 @@ func (sh *SumHead) ReadFrom(c *rsyncwire.Conn) error {
 	if sh.RemainderLength < 0 || sh.RemainderLength > sh.BlockLength {
 		return fmt.Errorf("invalid remainder length %d", sh.RemainderLength)
 	}
+	if sh.ChecksumCount > 0 && sh.BlockLength == 0 {
+		// Checksums of zero-length blocks: the sender's block search
+		// would index into an empty window.
+		return fmt.Errorf("invalid block length 0 for %d checksums", sh.ChecksumCount)
+	}
 
 	return nil
 }
